@@ -402,18 +402,46 @@ def err_returns(fa):
     return [(b, s, t) for b, s, t in ret_assigns(fa) if is_agg(t, "Err", "std::result::Result")]
 
 
+_CANON_CALL = {"is_none": "is_some", "is_err": "is_ok"}
+
+
+def canon_cond(o):
+    """canonical form of a boolean condition term and whether its truth value was flipped:
+    Not(x) -> x (flipped); Ne -> Eq (flipped); Ge(a,b) -> Lt(a,b) (flipped); Gt(a,b) -> Lt(b,a);
+    Le(a,b) -> Lt(b,a) (flipped); is_none(x) -> is_some(x) (flipped); is_err -> is_ok (flipped).
+    Rules therefore see one spelling of a test however the source writes it."""
+    neg = False
+    while True:
+        if isinstance(o, tuple) and o[0] == "un" and o[1] == "Not":
+            o = o[2]
+            neg = not neg
+            continue
+        if isinstance(o, tuple) and o[0] == "bin":
+            op = o[1]
+            if op == "Ne":
+                o, neg = ("bin", "Eq", o[2], o[3]), not neg
+            elif op == "Ge":
+                o, neg = ("bin", "Lt", o[2], o[3]), not neg
+            elif op == "Gt":
+                o = ("bin", "Lt", o[3], o[2])
+            elif op == "Le":
+                o, neg = ("bin", "Lt", o[3], o[2]), not neg
+        elif isinstance(o, tuple) and o[0] == "call" and isinstance(o[2], str):
+            head, _, last = o[2].rpartition("::")
+            if last in _CANON_CALL:
+                o, neg = ("call", o[1], head + "::" + _CANON_CALL[last], o[3]), not neg
+        return o, neg
+
+
 def bool_switches(fa, pred):
-    """switches on a bool whose (Not-stripped) discriminant origin satisfies
-    pred; yields (bb, term, true_target, false_target)"""
+    """switches on a bool whose canonical (see canon_cond) discriminant origin satisfies
+    pred; yields (bb, canonical term, target when the canonical term is true, target when false)"""
     for b in fa.live():
         t = b.term
         if t["k"] != "switch" or t.get("discr_ty") != "bool":
             continue
         o = fa.origin_operand(t["discr"], b.i, len(b.stmts))
-        neg = False
-        while isinstance(o, tuple) and o[0] == "un" and o[1] == "Not":
-            o = o[2]
-            neg = not neg
+        o, neg = canon_cond(o)
         if not pred(o):
             continue
         m = {v: x for v, x in t["targets"]}
